@@ -320,6 +320,31 @@ func init() {
 		}
 		return n.(int64) / 1e9
 	})
+	// UnixMicro / UnixMilli: floor division of the nanosecond count (the
+	// quotient of Go's truncating division, minus one when the remainder is negative)
+	floorDiv := func(unit int64, kind string) intrinsicFn {
+		return func(i *interpreter, fr *frame, args []value) value {
+			n := timeNanos(args[0])
+			t64 := types.Typ[types.Int64]
+			q := binop(token.QUO, t64, n, unit)
+			r := binop(token.REM, t64, n, unit)
+			if i.condBool(binop(token.LSS, t64, r, int64(0)), kind) {
+				q = binop(token.SUB, t64, q, int64(1))
+			}
+			return q
+		}
+	}
+	reg("(time.Time).UnixMicro", floorDiv(1000, "unixmicro"))
+	reg("(time.Time).UnixMilli", floorDiv(1000000, "unixmilli"))
+	fromUnit := func(unit int64) intrinsicFn {
+		return func(i *interpreter, fr *frame, args []value) value {
+			// instants beyond the int64 nanosecond range wrap in this model (the
+			// native replay of a counterexample decides)
+			return structure{uint64(1), binop(token.MUL, types.Typ[types.Int64], args[0], unit), (*value)(nil)}
+		}
+	}
+	reg("time.UnixMicro", fromUnit(1000))
+	reg("time.UnixMilli", fromUnit(1000000))
 	reg("(time.Time).Add", func(i *interpreter, fr *frame, args []value) value {
 		return structure{uint64(1), binop(token.ADD, types.Typ[types.Int64], timeNanos(args[0]), args[1]), (*value)(nil)}
 	})
